@@ -10,7 +10,7 @@ REQUIRED_THEOREMS = ["address_changes_only_on_status_ack", "configuration_change
                      "handshake_forwarded_only_for_own_in_token", "foreign_handshake_is_invisible",
                      "address_strobe_only_on_gated_ack_in_set_address", "config_strobe_only_on_gated_ack_in_set_configuration",
                      "address_strobe_returns_to_idle", "cycle_refines_event", "cycle_refines_event_run"]
-RULE = dev_ctl.RULE + dev_ctl.CYC_RULE
+RULE = dev_ctl.RULE + dev_ctl.CYC_RULE + c07.RULE_SYS
 ASSUMPTIONS = dev_ctl.ASSUMPTIONS
 PARTIAL = c07.PARTIAL_STREAMS + dev_ctl.PARTIAL["C08"][len(dev_ctl.PARTIAL_COMMON):]
 
